@@ -27,7 +27,8 @@ RULE = (
 def units(tier, seed):
     us = []
     fam = G.general_family(tier)
-    tree_specs = [s for s in fam if s["name"].split(":")[0] in ("S1", "S2", "S3", "S5", "S9", "S11", "S12", "S15", "S16")]
+    tree_specs = [s for s in fam if s["name"].split(":")[0] in ("S1", "S2", "S3", "S5", "S9", "S11", "S12", "S14", "S15", "S16", "S26")
+                  and not s.get("stringify")]
     tree_specs += [s for s in fam if s["name"].startswith("F1:")]
     if tier != "quick":
         tree_specs = [s for s in G.finite_family(tier)]
@@ -137,7 +138,7 @@ def run_tree(unit) -> UnitResult:
         g = ctx.g
         if g is None:
             return r
-        d = g.get_min_tree_depth() + 1
+        d = g.get_min_tree_depth() + (2 if ctx.spec["name"].startswith("S26") else 1)
         parents = []
         seen = set()
         st = ExploreStats()
@@ -159,7 +160,27 @@ def run_tree(unit) -> UnitResult:
             if all(p[1] != q[1] for q in uniq):
                 uniq.append(p)
         parents = uniq
-        for (a, ta), (b, tb) in itertools.product(parents, repeat=2):
+        # second generation: offspring of a first crossover (live objects, possibly sub-nodes of an earlier parent)
+        # are used as parents too
+        second = []
+        if ctx.spec["start"] not in ctx.view.abstract:
+            from mc.explorer import ExhaustiveSource as _ES
+
+            seen2 = {t for _, t in parents}
+            for (a, ta), (b, tb) in itertools.product(parents[:4], repeat=2):
+                for choices in ((), (1,), (2,), (0, 1)):
+                    try:
+                        kids = make_rep("tree", g, _ES(choices, strict=False), d).crossover(_ES(choices, strict=False), a, b)
+                    except Exception:  # noqa
+                        continue
+                    for kch in kids:
+                        tk = R.term(kch)
+                        # by identity, not by term: what matters is the live object (and the metadata it carries)
+                        if all(kch is not x for x, _ in parents) and all(kch is not x for x, _ in second) and len(second) < 8:
+                            second.append((kch, tk))
+        pairs = list(itertools.product(parents, repeat=2))
+        pairs += [(p, c) for p in parents[:4] for c in second] + [(c, p) for p in parents[:4] for c in second]
+        for (a, ta), (b, tb) in pairs:
             def xo(src, a=a, b=b):
                 return make_rep("tree", g, src, d).crossover(src, a, b)
 
